@@ -264,7 +264,7 @@ ConfSmall(o) == o.m * o.n <= 100 * 100 \/ (Cfg.l3 <= 4096 /\ o.m * o.n <= 350 * 
 SamePLE(R, ev) == R.r = ev.ret /\ R.P = ev.p.P /\ R.Q = ev.p.Q /\ Eq(R.A, Post(O(ev, 1)))
 ModelDrift(ev) ==
   LET op == ev.op  p == ev.p IN
-  IF CfgIdx = {} \/ ev.die = 1 \/ ~(op \in PleFamily \cup {"echelonize_m4ri", "echelonize_pluq", "find_pivot", "solve_left", "_solve_left", "kernel_left_pluq"}) \/ ~ConfSmall(O(ev, 1)) THEN {}
+  IF CfgIdx = {} \/ ev.die = 1 \/ ~(op \in PleFamily \cup {"echelonize_m4ri", "top_echelonize_m4ri", "echelonize_pluq", "find_pivot", "solve_left", "_solve_left", "kernel_left_pluq"}) \/ ~ConfSmall(O(ev, 1)) THEN {}
   ELSE LET A == Pre(O(ev, 1)) IN
     CASE op = "_ple_russian" -> LET R == RussianOf(A, p.k) IN IF R.ok /\ SamePLE(R, ev) THEN {} ELSE {"drift_ple_russian"}
       [] op = "_pluq_russian" -> LET R == RussianOf(A, p.k) IN
@@ -288,6 +288,9 @@ ModelDrift(ev) ==
       [] op = "find_pivot" ->            \* the first row that holds a one in the left-most non-zero column
            LET f == ECH!FindPivot(A.r, A.m, p.sr, p.sc) IN
            IF (f.found <=> ev.ret = 1) /\ (f.found => f.r = p.r /\ f.c = p.c) THEN {} ELSE {"drift_find_pivot"}
+      [] op = "top_echelonize_m4ri" ->
+           IF p.k < 1 THEN {}
+           ELSE IF Eq(ECH!TopEchelonM4RI(A, p.k).A, Post(O(ev, 1))) THEN {} ELSE {"drift_top_echelonize"}
       [] op = "echelonize_m4ri" ->
            IF p.k < 1 THEN {}
            ELSE LET R == ECH!EchelonM4RI(A, p.full = 1, p.k) IN
